@@ -370,6 +370,9 @@ package stream
 //@   modifies calls(couchbase.Observer.CloseEnd)
 //@ ensures.mode s.closeWithCancel == closeWithCancel
 //@ ensures.already_closed[C13] !wasopen ==> calls(models.EventHandler.BeforeStreamStop) == 0 && calls(models.EventHandler.AfterStreamStop) == 0 && dcalls("stream.(*stream).closeAllStreams") == 0 && s.observers == old(s.observers) && s.offsets == old(s.offsets) && !s.open && sends(s.finishStreamWithCloseCh) == 0
+//@ ensures.already_closed_visible[C13] !wasopen ==> calls(models.EventHandler.BeforeStreamStop) == 0 && calls(models.EventHandler.AfterStreamStop) == 0 && calls(couchbase.Client.CloseStream) == 0 && calls(couchbase.Observer.Close) == 0 && s.observers == old(s.observers) && !s.open && sends(s.finishStreamWithCloseCh) == 0
+//@ ensures.channel_stays_usable[C13] !chclosed(s.finishStreamWithCloseCh)
+//@ ensures.closed_visible[C13] wasopen ==> calls(models.EventHandler.BeforeStreamStop) == 1 && calls(models.EventHandler.AfterStreamStop) == 1
 //@ ensures.cancel_reopen[C13] !wasopen ==> calls("time.(*Timer).Stop") == ite(old(s.rebalanceTimer) != nil, 1, 0)
 //@ ensures.closed[C13] wasopen ==> !s.open && s.observers == nil && fresh(s.offsets) && fresh(s.dirtyOffsets) && (forall vb uint16 :: !has(s.offsets, vb) && !has(s.dirtyOffsets, vb))
 //@ ensures.bracket[C11] wasopen ==> calls(models.EventHandler.BeforeStreamStop) == 1 && calls(models.EventHandler.AfterStreamStop) == 1 && ts(models.EventHandler.BeforeStreamStop, 0) < ts("stream.(*stream).closeAllStreams", 0) && ts("stream.(*stream).closeAllStreams", 0) < ts(models.EventHandler.AfterStreamStop, 0)
